@@ -1,6 +1,6 @@
 """What is claimed, per property. A property appears in CLAIMS only once its checker exists and
 passes on the unchanged tree."""
-FIX_COMMITS = ["4e9e139", "5ee6583", "744f482", "eb93a13", "ceb972a", "a924d81", "2127bcd", "d45c8ce", "840f793", "c6f0e0e", "026690a", "cee72dd"]
+FIX_COMMITS = ["4e9e139", "5ee6583", "744f482", "eb93a13", "ceb972a", "a924d81", "2127bcd", "d45c8ce", "840f793", "c6f0e0e", "026690a", "cee72dd", "d6006a0"]
 
 CLAIMS = {
     "C09": dict(
@@ -138,6 +138,17 @@ CLAIMS = {
         ref="DESIGN.md §3 C11",
         note="trusts HashedValue's identity equality; the evaluation of the produced conditions is C01",
         technique="static analysis: finite decision-table extraction (16 + 5 + 8 cells), taint lint over the evaluation closure with positive control",
+    ),
+    "C08": dict(
+        text="Decides 'no written branch is silently ignored' and 'in the order written' structurally: the surgery routines are executed on an "
+             "abstract heap (both tree representations, _parent_ setter inlined from source) for 43 initial shapes x 3 routines and five "
+             "postconditions each; the selectors' evaluation bodies are checked on their CFGs (left conclusions only without a true "
+             "refinement result, first true branch for else-if, both for also-if, selection cleared after each emission, refinement "
+             "evaluated under the parent's binding). The full ripple-down semantics on arbitrary trees and data is not decided; "
+             "re-evaluation of rule queries is reported under C03.",
+        ref="DESIGN.md §3 C08",
+        note="shapes deeper than two selector levels are assumed to behave like the enumerated ones; constructor summary is re-checked against source on every run",
+        technique="static analysis: abstract heap interpretation of the tree-surgery routines over enumerated shapes + CFG control-dependence on the selectors",
     ),
 }
 
